@@ -157,6 +157,25 @@ def run(ctx, only=None):
         paths = [tuple(g[0]) for g in got]
         if len(paths) != len(set(paths)):
             ctx.failing.append({'interface': 'oracle(traverse)', 'input': inp, 'what': 'traverse yielded a token twice', 'kf': None})
+        # ... and exactly the reachable tokens of the asked class within the asked depth, level by level (written here from the
+        # generic view of the tree, not from the generator): nothing is missed, nothing else is yielded
+        want, level = [], [([], r['utree'])]
+        if incl and (allowed is None or r['utree'][0] in allowed):
+            want.append([])
+        dd = 0
+        while level and (depth is None or dd < depth):
+            dd += 1
+            nxt = []
+            for pth, u in level:
+                for i, ch in enumerate(u[1]):
+                    if allowed is None or ch[0] in allowed:
+                        want.append(pth + [i])
+                    nxt.append((pth + [i], ch))
+            level = nxt
+        if [list(p_) for p_ in paths] != want:
+            ctx.failing.append({'interface': 'oracle(traverse)', 'input': dict(inp, klass=klass_name, depth=depth, include_source=incl),
+                                'what': 'traverse does not yield exactly the reachable tokens of the class within the depth, level by level',
+                                'observed': [list(p_) for p_ in paths][:30], 'expected': want[:30], 'kf': None})
         for (path, _c, d, ppath) in got:
             if d != len(path) or (path and ppath != path[:-1]) or (not path and ppath is not None):
                 ctx.failing.append({'interface': 'oracle(traverse)', 'input': inp, 'what': 'traverse reports a wrong parent or depth', 'observed': [path, d, ppath], 'kf': None})
